@@ -5,6 +5,7 @@ package raft
 // State-dependent action generators. All randomness comes from rapid.
 
 import (
+	"fmt"
 	"sort"
 
 	"pgregory.net/rapid"
@@ -29,6 +30,7 @@ var baseWeights = map[string]int{
 	"upd": 10, "read": 1, "dread": 1, "barrier": 1,
 	"snap": 2, "xfer": 1, "cfg": 2,
 	"crash": 2, "stop": 1, "restart": 4, "gate": 1, "free": 1,
+	"hold": 0, "unhold": 6, "heldsnap": 0,
 }
 
 func weights(over map[string]int) map[string]int {
@@ -50,7 +52,7 @@ var profiles = map[string]*profile{
 	"member": {name: "member", minNodes: 1, maxNodes: 4, extras: 3, warmUpd: 6, steps: [2]int{10, 50}, gatedBias: 50, padMax: 40,
 		w: weights(map[string]int{"cfg": 16, "upd": 8, "elect": 6, "poke": 6, "xfer": 2, "crash": 3, "restart": 5, "adv": 12})},
 	"snap": {name: "snap", minNodes: 1, maxNodes: 4, extras: 1, warmUpd: 40, steps: [2]int{10, 40}, gatedBias: 40, padMax: 200,
-		w: weights(map[string]int{"snap": 12, "upd": 16, "restart": 6, "crash": 3, "stop": 3, "isolate": 4, "heal": 5, "cfg": 3, "adv": 12})},
+		w: weights(map[string]int{"heldsnap": 5, "hold": 3, "snap": 12, "upd": 16, "restart": 6, "crash": 3, "stop": 3, "isolate": 4, "heal": 5, "cfg": 3, "adv": 12})},
 	"crash": {name: "crash", minNodes: 1, maxNodes: 4, extras: 1, warmUpd: 20, steps: [2]int{10, 40}, gatedBias: 40, padMax: 120,
 		w: weights(map[string]int{"crash": 14, "restart": 12, "upd": 14, "snap": 6, "cfg": 3, "adv": 12, "elect": 5})},
 	"client": {name: "client", minNodes: 1, maxNodes: 5, extras: 1, warmUpd: 10, steps: [2]int{10, 50}, gatedBias: 25, padMax: 60,
@@ -58,7 +60,9 @@ var profiles = map[string]*profile{
 	"transfer": {name: "transfer", minNodes: 2, maxNodes: 5, extras: 1, warmUpd: 6, steps: [2]int{8, 40}, gatedBias: 60, padMax: 40,
 		w: weights(map[string]int{"xfer": 16, "upd": 10, "cfg": 4, "poke": 8, "elect": 5, "dlv": 12, "sever": 5, "adv": 10})},
 	"chaos": {name: "chaos", minNodes: 1, maxNodes: 5, extras: 2, warmUpd: 30, steps: [2]int{15, 60}, gatedBias: 10, padMax: 200, closing: true,
-		w: weights(map[string]int{"upd": 16, "snap": 6, "cfg": 6, "xfer": 4, "crash": 4, "stop": 3, "restart": 8, "isolate": 4, "heal": 5, "adv": 16, "read": 3, "dread": 2, "barrier": 2})},
+		w: weights(map[string]int{"heldsnap": 2, "hold": 2, "upd": 16, "snap": 6, "cfg": 6, "xfer": 4, "crash": 4, "stop": 3, "restart": 8, "isolate": 4, "heal": 5, "adv": 16, "read": 3, "dread": 2, "barrier": 2})},
+	"snapmember": {name: "snapmember", minNodes: 2, maxNodes: 4, extras: 2, warmUpd: 12, steps: [2]int{10, 40}, gatedBias: 20, padMax: 60,
+		w: weights(map[string]int{"heldsnap": 12, "unhold": 10, "snap": 6, "cfg": 14, "upd": 12, "adv": 14, "restart": 6, "stop": 3, "crash": 2, "isolate": 2, "heal": 4})},
 	"info": {name: "info", minNodes: 2, maxNodes: 4, extras: 1, warmUpd: 20, steps: [2]int{10, 50}, gatedBias: 50, padMax: 120,
 		w: weights(map[string]int{"snap": 8, "upd": 14, "isolate": 4, "heal": 4, "elect": 6, "crash": 3, "restart": 6, "cfg": 3})},
 }
@@ -88,6 +92,8 @@ func pickU64(rt *rapid.T, label string, xs []uint64) uint64 {
 }
 
 var advChoices = []int64{10, 50, 100, 300, 600, 1100, 2500, 5000}
+
+var holdPoints = []string{"snap.begin", "snap.begin", "snap.fsmdone", "repl.preread", "repl.prewrite"}
 
 var crashPoints = []string{
 	"term.persisted", "vote.persisted", "append.appended", "append.truncated", "append.flushed",
@@ -135,6 +141,9 @@ func (c *cluster) genAction(rt *rapid.T, p *profile) vAct {
 	add("restart", len(down) > 0)
 	add("gate", !gated)
 	add("free", gated)
+	add("hold", len(up) > 0 && len(c.holds) < 2)
+	add("unhold", len(c.holds) > 0)
+	add("heldsnap", len(up) > 0 && len(c.holds) < 2)
 	sort.SliceStable(ws, func(i, j int) bool { return ws[i].kind < ws[j].kind })
 
 	kind := drawKind(rt, ws)
@@ -225,6 +234,22 @@ func (c *cluster) genAction(rt *rapid.T, p *profile) vAct {
 		return vAct{A: "stop", N: pickU64(rt, "n", up)}
 	case "restart":
 		return vAct{A: "restart", N: pickU64(rt, "n", down)}
+	case "hold":
+		return vAct{A: "hold", N: pickU64(rt, "n", up), S: holdPoints[rapid.IntRange(0, len(holdPoints)-1).Draw(rt, "point")]}
+	case "unhold":
+		keys := make([]string, 0, len(c.holds))
+		for k := range c.holds {
+			keys = append(keys, k)
+		}
+		sort.Strings(keys)
+		k := keys[rapid.IntRange(0, len(keys)-1).Draw(rt, "held")]
+		var id uint64
+		var pt string
+		fmt.Sscanf(k, "%d/%s", &id, &pt)
+		return vAct{A: "unhold", N: id, S: pt}
+	case "heldsnap":
+		// snapshot whose goroutine is parked at its first instruction
+		return vAct{A: "heldsnap", N: preferLeader("n"), K: rapid.IntRange(0, 2).Draw(rt, "threshold")}
 	case "gate":
 		return vAct{A: "gate"}
 	case "free":
